@@ -149,7 +149,10 @@ pub fn render(mode: &TransportMode, d: &DescSpec) -> String {
         if s.rtcp_mux && s.kind != MediaKind::Image { o.push_str("a=rtcp-mux\r\n"); }
         if s.kind == MediaKind::Application { o.push_str("a=sctp-port:5000\r\n"); }
         if rtp {
-            for (id, uri) in &s.extmaps { o.push_str(&format!("a=extmap:{id} {uri}\r\n")); }
+            for (id, uri) in &s.extmaps {
+                if id.is_empty() && uri.is_empty() { o.push_str("a=extmap\r\n"); } // a value-less attribute among the others
+                else { o.push_str(&format!("a=extmap:{id} {uri}\r\n")); }
+            }
             for c in &s.codecs {
                 if c.rtpmap {
                     if c.channels == 0 { o.push_str(&format!("a=rtpmap:{} {}/{}\r\n", c.pt, c.name, c.clock)); }
